@@ -68,6 +68,23 @@ Theorem C11_disable_is_projection_comment_free : forall S st f raw,
 Proof. exact (fun S st f raw => disable_emit_projection_comment_free IGN nm S st f U B raw). Qed.
 Print Assumptions C11_disable_is_projection_comment_free.
 
+(* end to end: D(P, disable S) is computed from the raw stream the checker produces *under the
+   disabling configuration*.  It is the projection of D(P) whenever that stream, restricted to the
+   codes that stay enabled, is the one produced with everything enabled — an explicit, decidable
+   hypothesis that the harness checks for every program and code subset (a change that makes a probe
+   under catch_errors() see fewer errors when a code is disabled violates exactly it) *)
+Theorem C11_disable_end_to_end : forall S st f raw raw',
+  raw_indep S st raw raw' ->
+  main IGN nm (disable S st) f raw' = filter (not_in S) (main IGN nm st f raw).
+Proof. exact (disable_end_to_end IGN nm). Qed.
+Print Assumptions C11_disable_end_to_end.
+
+Theorem C11_disable_end_to_end_comment_free : forall S st f raw raw',
+  comment_free IGN f -> raw_indep S st raw raw' ->
+  emit IGN nm (disable S st) f U B raw' = filter (not_in S) (emit IGN nm st f U B raw).
+Proof. exact (fun S st f raw raw' => disable_end_to_end_comment_free IGN nm S st f U B raw raw'). Qed.
+Print Assumptions C11_disable_end_to_end_comment_free.
+
 (* the hypothesis of the full form cannot be dropped: disabling the only code an
    `ignore[code]` comment suppresses makes that comment unused (and reported) *)
 Theorem C11_disable_full_needs_same_used : exists S st f raw,
